@@ -5,27 +5,38 @@ Property theorems about `EdbVerif.Sync`, the model of the delta-sync protocol
 between `edb/server/compiler_pool/pool.py` (server: belief per worker,
 `_compute_compile_preargs`, `sync_worker_state_cb`, `BaseWorker.call`,
 `compile`, `compile_in_tx`) and `edb/server/compiler_pool/worker.py` (worker:
-`__sync__`, `compile`, `compile_in_tx`).  Helper lemmas and proofs are in
-`EdbVerif/Lemmas/Sync*.lean`.
+`__sync__`, `compile`, `compile_in_tx`) — the code AFTER the repairs
+2709780 (callback merges with `old if new is None else new`), 03eafed
+(`__sync__` unpickles everything before installing anything) and ae526a3
+(`LAST_STATE` assigned after pickling; the pool forgets `_last_pickled_state`
+when `worker.call` raises).  Helper lemmas and proofs are in
+`EdbVerif/Lemmas/Sync*.lean`; the pre-repair transitions survive in
+`Model/SyncBuggy.lean` for the `C17_repaired_…` theorems only.
 
-Reading guide.  Values are identity tokens; `env.falsy t` / `env.bad t` say
-that the object behind `t` is falsy / cannot be unpickled by the worker.  A
-*slot* is one of the places a worker keeps a part (schema / reflection cache /
-config of a database, global schema, system config); `ws.bel.get σ` is what
-the server believes worker `ws` holds in `σ`, `ws.act.get σ` what it holds.
-`exec env (initState init) pre` is the state after the history `pre` started
-from workers initialised with `init`; which worker serves a request is part of
-the request, so every statement holds for every scheduling decision of the
-pool.
+Reading guide.  Values are identity tokens; `env.bad t` says that the object
+behind `t` cannot be unpickled by the worker.  A *slot* is one of the places a
+worker keeps a part (schema / reflection cache / config of a database, global
+schema, system config); `ws.bel.get σ` is what the server believes worker `ws`
+holds in `σ`, `ws.act.get σ` what it holds.  `exec env (initState init) pre`
+is the state after the history `pre` started from workers initialised with
+`init`; which worker serves a request is part of the request, so every
+statement holds for every scheduling decision of the pool.  Histories contain
+falsy values, sync failures at every failure point, compiler errors (with and
+without in-place mutation of the transaction state), unpicklable compiler
+states and unserialisable results, unless a hypothesis says otherwise.
 
-Outcome.  The three statements of DESIGN §4 (`C17_used`, `C17_belief`,
-`C17_intx`) are FALSE of the code at full strength; each is proved here under
-the weakest hypotheses I could find, the exact condition is given
-(`C17_used_exact`), and for every dropped hypothesis there is a concrete
-counter-history (`…_counterexample…`), which the harness replays on the real
-functions.
+Outcome.  `C17_intx` holds at full strength (given the dbview invariant that a
+transaction passes its pickled state).  `C17_used` and `C17_belief` hold for
+every history without a *status 2* reply ("could not serialize result in
+worker subprocess": the worker has synced, but `BaseWorker.call` gets neither
+a result nor an exception object and does not acknowledge) — that defect is
+not repaired; the theorems carrying that hypothesis are named `…_partial`, the
+full statements are refuted by `…_counterexample_status2`.  Independently,
+`C17_used_noreturn` shows that even then nothing wrong is compiled as long as
+identities never come back, and `C17_used_exact` gives the exact condition.
 -/
-import EdbVerif.Lemmas.SyncFix
+import EdbVerif.Lemmas.SyncGhost
+import EdbVerif.Model.SyncBuggy
 
 namespace EdbVerif.C17
 open EdbVerif.Sync
@@ -42,73 +53,83 @@ theorem C17_used_exact (env : Env) (st : State) (r : CReq) (u : Used)
     (h : (stepCompile env st r).2.used = some u) : u = r.supplied ↔ Safe (st r.w) r :=
   Sync.compile_used_exact env st r u h
 
-/-- **C17_used.**  In every history in which identities never come back
-    (`NoReturn`: no request supplies, for a slot, an identity that an earlier
-    request had already replaced by another one), every `compile` request is
-    served with exactly the five parts it supplied — with arbitrary falsy
-    values, sync failures at every failure point, compiler errors, unpicklable
-    states and unserialisable results before it.  Stale beliefs only cause
-    harmless re-sends. -/
-theorem C17_used (env : Env) (init : Side) (pre : List Req) (r : CReq)
+/-- **C17_used** (partial: one hypothesis).  If no earlier `compile` request
+    ended with status 2, every `compile` request is served with exactly the
+    five parts it supplied — however identities are re-used, with falsy values
+    and sync failures at every failure point before it.
+
+    Full statement (FALSE, see `C17_used_counterexample_status2`):
+    `∀ env init pre r, (stepCompile env (exec env (initState init) pre) r).2.usedSupplied r`.
+    Missing: `BaseWorker.call` cannot acknowledge after status 2. -/
+theorem C17_used_partial (env : Env) (init : Side) (pre : List Req) (r : CReq)
+    (hl : NoStatus2 pre) :
+    (stepCompile env (exec env (initState init) pre) r).2.usedSupplied r :=
+  Sync.used_noStatus2 env init pre r hl
+
+/-- **C17_used when identities never come back.**  In every history — status 2
+    replies included — in which no request supplies, for a slot, an identity
+    that an earlier request had already replaced by another one (`NoReturn`),
+    every `compile` request is served with exactly the five parts it supplied:
+    a stale belief only causes harmless re-sends. -/
+theorem C17_used_noreturn (env : Env) (init : Side) (pre : List Req) (r : CReq)
     (h : NoReturn init (pre ++ [.compile r])) :
     (stepCompile env (exec env (initState init) pre) r).2.usedSupplied r :=
   Sync.used_noReturn env init pre r h
 
-/-- **C17_used, identities may come back.**  If no earlier request had a late
-    failure point (global schema / system config always unpickle, results can
-    always be sent back) and no earlier request supplied a falsy reflection
-    cache or database config, every `compile` request is served with exactly
-    the five parts it supplied, however identities are re-used. -/
-theorem C17_used_strict (env : Env) (init : Side) (pre : List Req) (r : CReq)
-    (hl : NoLateFail env pre) (hf : ∀ σ, FalsyOK env σ pre) :
-    (stepCompile env (exec env (initState init) pre) r).2.usedSupplied r :=
-  Sync.used_strict env init pre r hl hf
+/-- `compile_in_tx` (partial): whenever the call (re)sets the root user schema
+    of the transaction's compiler state, it sets it to the supplied one — also
+    when that is an old schema identity, the normal case
+    (`_in_tx_root_user_schema_pickle`) — provided no earlier `compile` ended
+    with status 2.
 
-/-- `compile_in_tx`: whenever the call (re)sets the root user schema of the
-    transaction's compiler state, it sets it to the supplied one — under
-    `NoReturn` (which here also demands that the transaction's root schema has
-    not been superseded) … -/
-theorem C17_used_tx (env : Env) (init : Side) (pre : List Req) (r : TReq)
+    Full statement (FALSE, see `C17_used_tx_counterexample_status2`): the same
+    without `NoStatus2 pre`. -/
+theorem C17_used_tx_partial (env : Env) (init : Side) (pre : List Req) (r : TReq)
+    (hl : NoStatus2 pre) :
+    (stepTx env (exec env (initState init) pre) r).2.usedRoot r :=
+  Sync.txRoot_noStatus2 env init pre r hl
+
+/-- … or provided identities never come back (which here also demands that the
+    transaction's root schema has not been superseded). -/
+theorem C17_used_tx_noreturn (env : Env) (init : Side) (pre : List Req) (r : TReq)
     (h : NoReturn init (pre ++ [.tx r])) :
     (stepTx env (exec env (initState init) pre) r).2.usedRoot r :=
   Sync.txRoot_noReturn env init pre r h
 
-/-- … or, for transactions whose root schema is an old one (the normal case:
-    `_in_tx_root_user_schema_pickle`), when no earlier request had a late
-    failure point (falsy merges do not matter for the schema slot). -/
-theorem C17_used_tx_strict (env : Env) (init : Side) (pre : List Req) (r : TReq)
-    (hl : NoLateFail env pre) (hf : FalsyOK env (.schema r.db) pre) :
-    (stepTx env (exec env (initState init) pre) r).2.usedRoot r :=
-  Sync.txRoot_strict env init pre r hl hf
-
 /-! ## C17_belief — "belief says x ⇒ the worker holds x" -/
 
-/-- **C17_belief.**  After every history without late failure points and
-    without falsy reflection caches / database configs, for every worker and
-    every slot: what the server believes the worker holds is what it holds.
-    Early sync failures (schema / reflection cache / database config cannot be
-    unpickled), compiler errors and unpicklable compiler states are allowed. -/
-theorem C17_belief (env : Env) (init : Side) (h : List Req) (hl : NoLateFail env h)
-    (hf : ∀ σ, FalsyOK env σ h) (w : Nat) : Agree (exec env (initState init) h w) :=
-  Sync.agree_exec env init h hl hf w
+/-- **C17_belief** (partial: one hypothesis).  After every history without a
+    status 2 reply, for every worker and every slot: what the server believes
+    the worker holds is what it holds.
 
-/-- Slot-wise version: the hypothesis on falsy values is only needed for the
-    slot in question (none at all for the global schema and the system
-    config; for a schema only "`b''` cannot be unpickled"). -/
-theorem C17_belief_slot (env : Env) (init : Side) (h : List Req) (σ : Slot)
-    (hl : NoLateFail env h) (hf : FalsyOK env σ h) (w : Nat) :
-    AgreeAt (exec env (initState init) h w) σ :=
-  Sync.agreeAt_exec env σ h _ (Sync.agreeAt_init init σ) hl hf w
+    Full statement (FALSE, see `C17_belief_counterexample_status2`):
+    `∀ env init h w, Agree (exec env (initState init) h w)`. -/
+theorem C17_belief_partial (env : Env) (init : Side) (h : List Req) (hl : NoStatus2 h) (w : Nat) :
+    Agree (exec env (initState init) h w) :=
+  Sync.agree_exec env init h hl w
 
-/-- Unconditionally: a request that ends in `FailedStateSync` changes no
-    belief (the acknowledgement callback does not run) … -/
-theorem C17_failed_sync_keeps_belief (env : Env) (st : State) (r : CReq)
+/-- **Second sentence of the property, at full strength.**  A failed state
+    transfer (`FailedStateSync`) changes no believed slot and leaves every
+    worker process exactly as it was … -/
+theorem C17_failed_sync_changes_nothing (env : Env) (st : State) (r : CReq)
     (h : (stepCompile env st r).2.res = .syncFail) (i : Nat) :
-    ((stepCompile env st r).1 i).bel = (st i).bel :=
-  Sync.syncFail_keeps_belief env st r h i
+    (∀ σ, ((stepCompile env st r).1 i).bel.get σ = (st i).bel.get σ) ∧
+      ((stepCompile env st r).1 i).act = (st i).act :=
+  Sync.syncFail_changes_nothing env st r h i
 
-/-- … and a belief changes only to a value that was sent in this request and
-    that the worker has installed. -/
+/-- … hence it never leaves the server believing the worker holds state it does
+    not hold, from whatever state it starts. -/
+theorem C17_failed_sync_preserves_agreement (env : Env) (st : State) (r : CReq)
+    (h : (stepCompile env st r).2.res = .syncFail) (i : Nat) (σ : Slot)
+    (ha : AgreeAt (st i) σ) : AgreeAt ((stepCompile env st r).1 i) σ := by
+  obtain ⟨hb, hact⟩ := Sync.syncFail_changes_nothing env st r h i
+  intro x hx
+  rw [hb σ] at hx
+  rw [hact]
+  exact ha x hx
+
+/-- Unconditionally: a belief changes only to a value that was sent in this
+    request and that the worker has installed. -/
 theorem C17_belief_moves_with_worker (env : Env) (st : State) (r : CReq) (σ : Slot) :
     ((stepCompile env st r).1 r.w).bel.get σ = (st r.w).bel.get σ ∨
       ∃ t, (preargs (st r.w).bel r).at r.db σ = some t ∧
@@ -123,39 +144,23 @@ theorem C17_callback_asserts_hold (env : Env) (st : State) (r : CReq) :
 
 /-! ## C17_intx — the compiler state used in a transaction -/
 
-/-- **C17_intx.**  If in the history so far nothing went wrong after a
-    worker-side compiler state was touched (`NoStateLoss`: every state returned
-    by the compiler could be pickled and sent back, and no failing
-    in-transaction compilation mutated the state it was given), a
-    `compile_in_tx` request that reaches the compiler runs on the supplied
-    compiler state … -/
-theorem C17_intx (env : Env) (init : Side) (pre : List Req) (r : TReq) (hs : NoStateLoss pre) :
+/-- **C17_intx, every history.**  A `compile_in_tx` request that passes a
+    pickled state (dbview invariant: a transaction always does) and reaches
+    the compiler runs on that state — after failures of every kind anywhere,
+    status 2 included … -/
+theorem C17_intx (env : Env) (init : Side) (pre : List Req) (r : TReq) (hp : r.pstate ≠ none) :
     (stepTx env (exec env (initState init) pre) r).2.usedState r :=
-  Sync.intx env init pre r hs
+  Sync.intx env init pre r hp
 
 /-- … in particular `REUSE_LAST_STATE_MARKER` is sent only to a worker whose
     `LAST_STATE` is the state the supplied pickle came from. -/
 theorem C17_intx_reuse (env : Env) (init : Side) (pre : List Req) (r : TReq)
-    (hs : NoStateLoss pre)
+    (hp : r.pstate ≠ none)
     (h : (stepTx env (exec env (initState init) pre) r).2.send = .reuse) :
     (exec env (initState init) pre r.w).act.last = r.pstate :=
-  Sync.reuse_only_to_holder env init pre r hs h
+  Sync.reuse_only_to_holder env init pre r hp h
 
-/-- **C17_intx at full strength, for the repaired pool.**  Candidate repair: in
-    `pool.py`, when `worker.call(…)` raises, set `worker._last_pickled_state =
-    None` before re-raising.  With the repair in `compile_in_tx` AND in
-    `compile` (`fixC = true`) every history, with failures of every kind
-    anywhere, has the property: a `compile_in_tx` request that supplies a
-    state (callers never pass `None`) and reaches the compiler runs on that
-    state.  With the repair in `compile_in_tx` only (`fixC = false`) one
-    hypothesis remains: `compile` never loses a state
-    (`CompileNoStateLoss`; see `C17_intx_fix_tx_only_counterexample`). -/
-theorem C17_intx_fixed (fixC : Bool) (env : Env) (init : Side) (pre : List Req) (r : TReq)
-    (hc : fixC = false → CompileNoStateLoss pre) (hp : r.pstate ≠ none) :
-    (stepTx env (execFix fixC env (initState init) pre) r).2.usedState r :=
-  Sync.intx_fixed fixC env init pre r hc hp
-
-/-! ## Counter-histories: the full statements are false
+/-! ## Counter-histories for the statements that are still false
 
 Token encoding `tokEnv`: bit 0 = falsy, bit 1 = cannot be unpickled.
 8 = schema S1, 12 = schema S2, 16 = reflection cache, 20 = database config C1,
@@ -176,171 +181,135 @@ def T (w s : Nat) (p : Option Nat) (out : TOut) (ns : Nat) : TReq :=
   { w := w, db := 0, schema := s, pstate := p, out := out, ns := ns }
 
 abbrev run (pre : List Req) : State := exec tokEnv (initState init0) pre
+/-- the same history on the pre-repair transitions -/
+abbrev runBuggy (pre : List Req) : State := Buggy.exec tokEnv (initState init0) pre
 
-/-- (i) falsy merge: one successful request supplying an empty database config
-    leaves the belief at the old config (20) while the worker holds 25.  No
-    failure of any kind is involved. -/
-theorem C17_belief_counterexample_falsy :
-    NoLateFail tokEnv [.compile (C 0 8 25 28 .ok 400)] ∧
-    ¬ Agree (run [.compile (C 0 8 25 28 .ok 400)] 0) := by
-  refine ⟨by simp [NoLateFail, Req.noLateFail, CReq.noLateFail, C, tokEnv], fun h => ?_⟩
-  have := h (.dbcfg 0) 20 (by decide)
+/-- status 2: the new schema 12 is sent and installed, the compiler runs, but
+    its result cannot be serialised → no acknowledgement: the belief still
+    says schema 8 while the worker holds 12. -/
+theorem C17_belief_counterexample_status2 :
+    (stepCompile tokEnv (initState init0) (C 0 12 20 28 .resultUnpicklable 400)).2.res = .serErr ∧
+    ¬ Agree (run [.compile (C 0 12 20 28 .resultUnpicklable 400)] 0) := by
+  refine ⟨by decide, fun h => ?_⟩
+  have := h (.schema 0) 8 (by decide)
   revert this; decide
-
-/-- … and if the old identity 20 is then supplied again it is elided and the
-    compiler gets the empty config 25 instead. -/
-theorem C17_used_counterexample_falsy :
-    ¬ (stepCompile tokEnv (run [.compile (C 0 8 25 28 .ok 400)]) (C 0 8 20 28 .ok 404)).2.usedSupplied
-        (C 0 8 20 28 .ok 404) := by
-  intro h
-  have := h ⟨8, 28, 16, 25, 36⟩ (by decide)
-  revert this; decide
-
-/-- (ii) partial sync: the new schema 12 is installed in `DBS`, then unpickling
-    the global schema 34 fails → `FailedStateSync`, no acknowledgement: the
-    belief still says schema 8.  No falsy value is involved. -/
-theorem C17_belief_counterexample_partial :
-    (∀ σ, FalsyOK tokEnv σ [.compile (C 0 12 20 34 .ok 400)]) ∧
-    (stepCompile tokEnv (initState init0) (C 0 12 20 34 .ok 400)).2.res = .syncFail ∧
-    ¬ Agree (run [.compile (C 0 12 20 34 .ok 400)] 0) := by
-  refine ⟨?_, by decide, fun h => ?_⟩
-  · intro σ q hq
-    simp only [List.mem_singleton] at hq
-    subst hq
-    cases σ <;> simp [Req.falsyOK, CReq.falsyOK, C, tokEnv]
-  · have := h (.schema 0) 8 (by decide)
-    revert this; decide
 
 /-- … a later request that supplies schema 8 again is compiled against 12. -/
-theorem C17_used_counterexample_partial :
-    ¬ (stepCompile tokEnv (run [.compile (C 0 12 20 34 .ok 400)]) (C 0 8 20 28 .ok 404)).2.usedSupplied
-        (C 0 8 20 28 .ok 404) := by
+theorem C17_used_counterexample_status2 :
+    ¬ (stepCompile tokEnv (run [.compile (C 0 12 20 28 .resultUnpicklable 400)])
+        (C 0 8 20 28 .ok 404)).2.usedSupplied (C 0 8 20 28 .ok 404) := by
   intro h
   have := h ⟨12, 28, 16, 20, 36⟩ (by decide)
   revert this; decide
 
-/-- … and so is a transaction that started under schema 8 (its root schema is
-    legitimately an old one): `compile_in_tx` elides the schema, the worker
-    takes `DBS[dbname].user_schema` = 12.  (400 is a state returned by worker 1,
-    so worker 0 cannot reuse its last state.) -/
-theorem C17_used_counterexample_tx_root :
-    ¬ (stepTx tokEnv (run [.compile (C 1 8 20 28 .ok 400), .compile (C 0 12 20 34 .ok 404)])
+/-- … and so is a transaction that started under schema 8: `compile_in_tx`
+    elides the schema, the worker takes `DBS[dbname].user_schema` = 12.  (400 is
+    a state returned by worker 1, so worker 0 cannot reuse its last state.) -/
+theorem C17_used_tx_counterexample_status2 :
+    ¬ (stepTx tokEnv (run [.compile (C 1 8 20 28 .ok 400), .compile (C 0 12 20 28 .resultUnpicklable 404)])
         (T 0 8 (some 400) .ok 408)).2.usedRoot (T 0 8 (some 400) .ok 408) := by
   intro h
   have := h ⟨400, some 12⟩ (by decide) 12 rfl
   revert this; decide
 
-/-- (iii) the worker assigns `LAST_STATE` before it pickles the new state; when
-    that pickling fails the server keeps `_last_pickled_state` = 400 while the
-    worker's `LAST_STATE` is 404.  The client (whose state is still 400) then
-    gets the REUSE marker sent to that worker and runs on state 404. -/
-theorem C17_intx_counterexample :
-    (stepTx tokEnv (run [.compile (C 0 8 20 28 .ok 400), .tx (T 0 8 (some 400) .statePickleFail 404)])
-        (T 0 8 (some 400) .ok 408)).2.send = .reuse ∧
-    ¬ (stepTx tokEnv (run [.compile (C 0 8 20 28 .ok 400), .tx (T 0 8 (some 400) .statePickleFail 404)])
-        (T 0 8 (some 400) .ok 408)).2.usedState (T 0 8 (some 400) .ok 408) := by
-  refine ⟨by decide, fun h => ?_⟩
-  have := h ⟨404, none⟩ (by decide)
-  revert this; decide
-
-/-- (iv) a `compile_in_tx` that FAILS after mutating the state in place.  With
-    the REUSE marker the compiler works on the worker's `LAST_STATE` object
-    itself; it mutates it (content 400 → 404) and raises; `pool.compile_in_tx`
-    leaves `_last_pickled_state` = 400 (it is only assigned on success), so the
-    caller's next request with the same pickled state 400 gets the REUSE marker
-    again and is compiled on the mutated state 404.  Nothing unusual is
-    needed: an ordinary compilation error inside a transaction. -/
-theorem C17_intx_counterexample_failed_compile :
-    (stepTx tokEnv (run [.compile (C 0 8 20 28 .ok 400), .tx (T 0 8 (some 400) .raiseMutated 404)])
-        (T 0 8 (some 400) .ok 408)).2.send = .reuse ∧
-    ¬ (stepTx tokEnv (run [.compile (C 0 8 20 28 .ok 400), .tx (T 0 8 (some 400) .raiseMutated 404)])
-        (T 0 8 (some 400) .ok 408)).2.usedState (T 0 8 (some 400) .ok 408) := by
-  refine ⟨by decide, fun h => ?_⟩
-  have := h ⟨404, none⟩ (by decide)
-  revert this; decide
-
-/-- the repair of `compile_in_tx` alone does not cover `compile` assigning
-    `LAST_STATE` before a failing `pickle.dumps(cstate)` -/
-theorem C17_intx_fix_tx_only_counterexample :
-    ¬ (stepTx tokEnv
-        (execFix false tokEnv (initState init0)
-          [.compile (C 0 8 20 28 .ok 400), .compile (C 0 8 20 28 .statePickleFail 404)])
-        (T 0 8 (some 400) .ok 408)).2.usedState (T 0 8 (some 400) .ok 408) := by
+/-- why `C17_intx` needs the dbview invariant: after a failed call the pool holds
+    `_last_pickled_state = None`; a caller passing `None` would match it
+    (`None is None`), get the REUSE marker and run on the worker's state 400. -/
+theorem C17_intx_counterexample_none_state :
+    ¬ (stepTx tokEnv (run [.compile (C 0 8 20 28 .ok 400), .tx (T 0 8 (some 400) .raise 404)])
+        (T 0 8 none .ok 408)).2.usedState (T 0 8 none .ok 408) := by
   intro h
-  have := h ⟨404, none⟩ (by decide)
+  have := h ⟨400, none⟩ (by decide)
   revert this; decide
 
-/-- on the repaired pool the counter-history (iv) is served correctly: no
-    REUSE marker, the supplied pickle 400 is sent and used -/
-example :
-    (stepTx tokEnv
-        (execFix false tokEnv (initState init0)
-          [.compile (C 0 8 20 28 .ok 400), .tx (T 0 8 (some 400) .raiseMutated 404)])
-        (T 0 8 (some 400) .ok 408)).2 = ⟨.byName, .ok, some ⟨400, some 8⟩⟩ := by decide
+/-! ## What the repairs repaired
 
-/-- why `C17_intx_fixed` asks for a non-`None` state: after the repair cleared
-    `_last_pickled_state`, a caller passing `None` would match it (`None is None`) -/
-example :
-    (stepTx tokEnv
-        (execFix true tokEnv (initState init0)
-          [.compile (C 0 8 20 28 .ok 400), .tx (T 0 8 (some 400) .raise 404)])
-        (T 0 8 none .ok 408)).2 = ⟨.reuse, .ok, some ⟨400, none⟩⟩ := by decide
+Each theorem: on the pre-repair transitions (`Buggy`) the history ends with the
+compiler receiving something else than supplied; on the current ones it is
+served correctly.  The harness keeps the histories as regression witnesses. -/
+
+/-- 2709780 — falsy merge.  Worker 0 is sent an empty database config (25);
+    the old callback kept believing 20 (`new or old`), so supplying 20 again
+    was elided and the compiler got 25. -/
+theorem C17_repaired_falsy_merge :
+    (Buggy.stepCompile tokEnv (runBuggy [.compile (C 0 8 25 28 .ok 400)]) (C 0 8 20 28 .ok 404)).2.used
+      = some ⟨8, 28, 16, 25, 36⟩ ∧
+    (stepCompile tokEnv (run [.compile (C 0 8 25 28 .ok 400)]) (C 0 8 20 28 .ok 404)).2.used
+      = some (C 0 8 20 28 .ok 404).supplied := by decide
+
+/-- 03eafed — partial `__sync__`.  Schema 12 was installed before unpickling
+    the global schema 34 failed; the belief stayed at 8, and a later request
+    (or transaction) supplying 8 was compiled against 12.  Now the failed sync
+    installs nothing. -/
+theorem C17_repaired_partial_sync :
+    (Buggy.stepCompile tokEnv (runBuggy [.compile (C 0 12 20 34 .ok 400)]) (C 0 8 20 28 .ok 404)).2.used
+      = some ⟨12, 28, 16, 20, 36⟩ ∧
+    (stepCompile tokEnv (run [.compile (C 0 12 20 34 .ok 400)]) (C 0 8 20 28 .ok 404)).2.used
+      = some (C 0 8 20 28 .ok 404).supplied ∧
+    (Buggy.stepTx tokEnv (runBuggy [.compile (C 1 8 20 28 .ok 400), .compile (C 0 12 20 34 .ok 404)])
+        (T 0 8 (some 400) .ok 408)).2.used = some ⟨400, some 12⟩ ∧
+    (stepTx tokEnv (run [.compile (C 1 8 20 28 .ok 400), .compile (C 0 12 20 34 .ok 404)])
+        (T 0 8 (some 400) .ok 408)).2.used = some ⟨400, some 8⟩ := by decide
+
+/-- ae526a3 — `LAST_STATE` vs `_last_pickled_state`.  (a) state pickling fails
+    in `compile_in_tx`, (b) `compile_in_tx` fails after mutating the reused state
+    in place, (c) state pickling fails in `compile`: before the repair the next
+    `compile_in_tx` with the caller's state 400 got the REUSE marker and ran on
+    state 404; now the pickle 400 is sent and used. -/
+theorem C17_repaired_last_state :
+    (Buggy.stepTx tokEnv (runBuggy [.compile (C 0 8 20 28 .ok 400), .tx (T 0 8 (some 400) .statePickleFail 404)])
+        (T 0 8 (some 400) .ok 408)).2 = ⟨.reuse, .ok, some ⟨404, none⟩⟩ ∧
+    (stepTx tokEnv (run [.compile (C 0 8 20 28 .ok 400), .tx (T 0 8 (some 400) .statePickleFail 404)])
+        (T 0 8 (some 400) .ok 408)).2 = ⟨.byName, .ok, some ⟨400, some 8⟩⟩ ∧
+    (Buggy.stepTx tokEnv (runBuggy [.compile (C 0 8 20 28 .ok 400), .tx (T 0 8 (some 400) .raiseMutated 404)])
+        (T 0 8 (some 400) .ok 408)).2 = ⟨.reuse, .ok, some ⟨404, none⟩⟩ ∧
+    (stepTx tokEnv (run [.compile (C 0 8 20 28 .ok 400), .tx (T 0 8 (some 400) .raiseMutated 404)])
+        (T 0 8 (some 400) .ok 408)).2 = ⟨.byName, .ok, some ⟨400, some 8⟩⟩ ∧
+    (Buggy.stepTx tokEnv (runBuggy [.compile (C 0 8 20 28 .ok 400), .compile (C 0 8 20 28 .statePickleFail 404)])
+        (T 0 8 (some 400) .ok 408)).2 = ⟨.reuse, .ok, some ⟨404, none⟩⟩ ∧
+    (stepTx tokEnv (run [.compile (C 0 8 20 28 .ok 400), .compile (C 0 8 20 28 .statePickleFail 404)])
+        (T 0 8 (some 400) .ok 408)).2 = ⟨.byName, .ok, some ⟨400, some 8⟩⟩ := by decide
 
 /-! ## Non-vacuity: the hypotheses are satisfiable by non-trivial histories -/
 
-/-- a history with an empty config, a partial sync failure, a status-2 reply,
-    a compile error and two workers in which identities never come back -/
+/-- a history with an empty config, a failed sync, a status-2 reply, a compile
+    error and two workers in which identities never come back -/
 def hNoReturn : List Req :=
   [.compile (C 0 8 25 28 .ok 400), .compile (C 0 12 25 34 .ok 404), .compile (C 1 12 25 32 .resultUnpicklable 408),
-   .compile (C 0 12 29 32 .raise 412), .tx (T 0 12 (some 400) .ok 416), .compile (C 0 12 29 32 .ok 420)]
+   .compile (C 1 12 29 32 .raise 412), .tx (T 0 12 (some 400) .ok 416), .compile (C 1 12 29 32 .ok 420)]
 
 example : NoReturn init0 hNoReturn := by decide
 
-/-- in it the belief of worker 0 about the database config is stale at the end (20 vs 29) … -/
-example : (run hNoReturn 0).bel.get (.dbcfg 0) = some 20 ∧ (run hNoReturn 0).act.get (.dbcfg 0) = some 29 := by
+/-- in it the belief of worker 1 about the global schema is stale after the third request (28 vs 32) … -/
+example : (run (hNoReturn.take 3) 1).bel.get .glob = some 28 ∧ (run (hNoReturn.take 3) 1).act.get .glob = some 32 := by
   decide
 
 /-- … yet the last request was compiled against exactly what it supplied -/
-example : (trace tokEnv (initState init0) hNoReturn)[5]? =
-    some (.compile ⟨⟨none, none, none, some 29, none⟩, true, .ok, some ⟨12, 32, 16, 29, 36⟩⟩) := by decide
+example : ((trace tokEnv (initState init0) hNoReturn)[5]?).map
+    (fun o => match o with | .compile c => c.used | .tx _ => none) =
+    some (some ⟨12, 32, 16, 29, 36⟩) := by decide
 
-/-- a history satisfying the hypotheses of `C17_belief` / `C17_used_strict`:
-    identities come back (20 after 24), an early sync failure (schema 14 cannot be unpickled),
-    a compile error -/
-def hStrict : List Req :=
-  [.compile (C 0 8 24 28 .ok 400), .compile (C 0 14 20 28 .ok 404), .compile (C 0 12 20 28 .raise 408),
-   .compile (C 1 12 24 32 .ok 412), .compile (C 0 8 20 28 .ok 416)]
+/-- a history satisfying the hypothesis of the `…_partial` theorems with everything
+    else going wrong: an empty config (25), identities coming back (20 after 25),
+    sync failures at an early (schema 14) and a late (global 34) failure point, a
+    compile error, a failed `compile_in_tx` that mutates the state, an unpicklable state -/
+def hNoStatus2 : List Req :=
+  [.compile (C 0 8 25 28 .ok 400), .compile (C 0 14 20 28 .ok 404), .compile (C 0 12 20 34 .raise 408),
+   .tx (T 0 8 (some 400) .raiseMutated 412), .compile (C 1 12 25 32 .statePickleFail 416),
+   .compile (C 0 8 20 28 .ok 420), .tx (T 0 8 (some 400) .resultUnpicklable 424)]
 
-example : NoLateFail tokEnv hStrict ∧ ∀ σ, FalsyOK tokEnv σ hStrict := by
-  constructor
-  · intro q hq
-    simp only [hStrict, List.mem_cons, List.mem_nil_iff, or_false] at hq
-    rcases hq with h | h | h | h | h <;> subst h <;> simp [Req.noLateFail, CReq.noLateFail, C, tokEnv]
-  · intro σ q hq
-    simp only [hStrict, List.mem_cons, List.mem_nil_iff, or_false] at hq
-    rcases hq with h | h | h | h | h <;> subst h <;> cases σ <;>
-      simp [Req.falsyOK, CReq.falsyOK, C, tokEnv]
-
-example : (trace tokEnv (initState init0) hStrict)[1]? =
-    some (.compile ⟨⟨some 14, none, none, some 20, none⟩, true, .syncFail, none⟩) := by decide
-
-/-- `C17_intx`'s hypothesis holds of a history that really reuses a state -/
-example : NoStateLoss [.compile (C 0 8 20 28 .ok 400), .tx (T 0 8 (some 400) .ok 404)] ∧
-    (stepTx tokEnv (run [.compile (C 0 8 20 28 .ok 400), .tx (T 0 8 (some 400) .ok 404)])
-      (T 0 8 (some 404) .raise 408)).2 = ⟨.reuse, .compErr, some ⟨404, none⟩⟩ := by
-  refine ⟨?_, by decide⟩
+example : NoStatus2 hNoStatus2 := by
   intro q hq
-  simp only [List.mem_cons, List.mem_nil_iff, or_false] at hq
-  rcases hq with h | h <;> subst h <;> simp [Req.noStateLoss, C, T]
+  simp only [hNoStatus2, List.mem_cons, List.mem_nil_iff, or_false] at hq
+  rcases hq with h | h | h | h | h | h | h <;> subst h <;> simp [Req.noStatus2, C]
 
-/-- `C17_intx_fixed` (repair in `compile_in_tx` only) applies to a history full of failures -/
-example : CompileNoStateLoss
-    [.compile (C 0 8 20 28 .ok 400), .tx (T 0 8 (some 400) .raiseMutated 404),
-     .tx (T 0 8 (some 400) .statePickleFail 408), .compile (C 0 12 20 34 .raise 412),
-     .tx (T 0 8 (some 400) .resultUnpicklable 416)] := by
-  intro r hr
-  simp only [List.mem_cons, List.mem_nil_iff, or_false, Req.compile.injEq, reduceCtorEq,
-    false_or] at hr
-  rcases hr with h | h <;> subst h <;> simp [C]
+example : ((trace tokEnv (initState init0) hNoStatus2).map
+    (fun o => match o with | .compile c => c.res | .tx t => t.res)) =
+    [.ok, .syncFail, .syncFail, .compErr, .statePickleErr, .ok, .serErr] := by decide
+
+/-- `C17_intx` applies to a request that really gets the REUSE marker -/
+example :
+    (stepTx tokEnv (run [.compile (C 0 8 20 28 .ok 400), .tx (T 0 8 (some 400) .ok 404)])
+      (T 0 8 (some 404) .raise 408)).2 = ⟨.reuse, .compErr, some ⟨404, none⟩⟩ := by decide
 
 end EdbVerif.C17
